@@ -476,6 +476,7 @@ func reachFromStart(start, c, to, avoid ssa.Instruction) bool {
 // than the zero value ("*": an implementation default the properties do not fix).
 var resetInitial = map[string]string{
 	"Settings.tableSize":         "4096",  // RFC 7540 s6.5.2 SETTINGS_HEADER_TABLE_SIZE
+	"Settings.tableSizeLow":      "4096",  // the lowest HEADER_TABLE_SIZE a frame carried: starts where tableSize starts
 	"Settings.windowSize":        "65535", // SETTINGS_INITIAL_WINDOW_SIZE
 	"Settings.frameSize":         "16384", // SETTINGS_MAX_FRAME_SIZE
 	"Settings.maxStreams":        "*",     // library default for an unconfigured endpoint
@@ -505,6 +506,7 @@ func ruleResetCompleteness(p *Prog, r *Out) {
 		"FrameHeader.rawHeader":     "scratch: fully overwritten by parseHeader in WriteTo before it is written",
 		"Ping.data":                 "always overwritten before use: SetData in handlePing/Deserialize, SetCurrentTime in writePing",
 		"Stream.bodyBuf":            "scratch read buffer, re-sliced before every Read",
+		"HPACK.pendingLowSize":      "only read under pendingSizeUpdate, which Reset clears; SetMaxTableSize writes it before it sets that flag (rule enc-size-update)",
 		"HPACK.DisableDynamicTable": "configuration switch; the library never returns an HPACK to the pool (no ReleaseHPACK call outside tests)",
 		"Ctx.Err":                   "channel: drained on acquire",
 		"Ctx.lck":                   "mutex: zero state is its reset state",
